@@ -1,6 +1,6 @@
 (* C12: refinement Q -> R for the non-separable helpers, modes and the CMYK wrapper (all sqrt-free). *)
 From Coq Require Import ZArith QArith Qreals Reals Lra Lia Bool.
-From PsdV Require Import Blend.Num Blend.Model Blend.Spec Blend.ProofsR Blend.ProofsNS Blend.Refine.
+From PsdV Require Import Blend.Num Blend.Model Blend.Spec Blend.ProofsR Blend.ProofsNS Blend.ProofsClip Blend.ProofsLip Blend.Refine.
 Open Scope R_scope.
 
 Definition Q2R3 (c : rgb NQ) : rgb NR := let '(r, g, b) := c in (Q2R r, Q2R g, Q2R b).
@@ -154,4 +154,30 @@ Proof. destruct c as [[r g] b]. unfold unit3, unit3Q, Q2R3. intros (? & ? & ?). 
 Theorem range_rgb_Q (m : nonsep_mode) cb cs : unit3Q cb -> unit3Q cs -> unit3Q (blend_rgb NQ m cb cs).
 Proof.
   intros Hb Hs. apply unit3_Q2R3. rewrite refine_rgb. apply range_rgb; apply Q2R3_unit3; assumption.
+Qed.
+
+(* hue / saturation / color / luminosity of the executable instance against the PDF formulas *)
+Theorem formula_hue_exec cb cs : unit3Q cb -> unit3Q cs ->
+  close3 (s_sat (Q2R3 cs)) (60 * e9) (Q2R3 (hue_rgb NQ cb cs)) (s_hue (Q2R3 cb) (Q2R3 cs)).
+Proof.
+  intros Hb Hs. change (hue_rgb NQ cb cs) with (blend_rgb NQ Hue cb cs). rewrite refine_rgb.
+  apply formula_hue_weighted; apply Q2R3_unit3; assumption.
+Qed.
+Theorem formula_saturation_exec cb cs : unit3Q cb -> unit3Q cs ->
+  close3 (s_sat (Q2R3 cb)) (60 * e9) (Q2R3 (saturation_rgb NQ cb cs)) (s_saturation (Q2R3 cb) (Q2R3 cs)).
+Proof.
+  intros Hb Hs. change (saturation_rgb NQ cb cs) with (blend_rgb NQ Saturation cb cs). rewrite refine_rgb.
+  apply formula_saturation_weighted; apply Q2R3_unit3; assumption.
+Qed.
+Theorem formula_color_exec cb cs : unit3Q cb ->
+  close3 1 (20 * e9) (Q2R3 (color_rgb NQ cb cs)) (s_color (Q2R3 cb) (Q2R3 cs)).
+Proof.
+  intros Hb. change (color_rgb NQ cb cs) with (blend_rgb NQ Color cb cs). rewrite refine_rgb.
+  apply formula_color. apply Q2R3_unit3. assumption.
+Qed.
+Theorem formula_luminosity_exec cb cs : unit3Q cs ->
+  close3 1 (20 * e9) (Q2R3 (luminosity_rgb NQ cb cs)) (s_luminosity (Q2R3 cb) (Q2R3 cs)).
+Proof.
+  intros Hs. change (luminosity_rgb NQ cb cs) with (blend_rgb NQ Luminosity cb cs). rewrite refine_rgb.
+  apply formula_luminosity. apply Q2R3_unit3. assumption.
 Qed.
